@@ -219,6 +219,13 @@ func (ex *exec) evalCall(st *State, call *ast.CallExpr, want bool) Value {
 	if v, ok := ex.stdModel(st, key, fn, recv, args, call); ok {
 		return v
 	}
+	// views of a contract: #ext is the abstract view for callers in other packages,
+	// #int the integer-mode view of a contract whose proof is in bit-vector mode
+	if fn.Pkg() != nil && ex.root.Pkg != nil && ex.root.Pkg.Types != fn.Pkg() {
+		if ct := ex.eng.contracts[key+"#ext"]; ct != nil {
+			return ex.applyContract(st, ct, fn, recv, args, call)
+		}
+	}
 	if ex.mode == ModeInt {
 		if ct := ex.eng.contracts[key+"#int"]; ct != nil {
 			return ex.applyContract(st, ct, fn, recv, args, call)
@@ -559,7 +566,10 @@ func (ex *exec) copyElems(st *State, dst *Slice, dstOff *Term, src *Slice, n *Te
 	body := Ite(in,
 		Eq(Select(na, j), Select(srcArr, ex.add(src.Off, ex.sub(j, start)))),
 		Eq(Select(na, j), Select(dstArr, j)))
-	st.assume(Forall([]*Term{j}, body))
+	cf := Forall([]*Term{j}, body)
+	st.assume(cf)
+	ex.copyN++
+	st.name(fmt.Sprintf("copy%d", ex.copyN), cf)
 	ex.store(st, dst.Base, na, pos)
 }
 
@@ -610,6 +620,23 @@ func (ex *exec) evalAppend(st *State, call *ast.CallExpr) Value {
 			ex.copyElems(st, res, ex.idxConst(0), sv, sv.Len, call.Pos())
 		}
 		write(st, res)
+		return res
+	}
+	// capacity undecided: the result is modelled as a freshly allocated slice with the right
+	// contents, and the spare capacity of the operand (which append may have written) is havocked.
+	// (Sharing between the result and the operand is not tracked on this path.)
+	if arr, ok := ex.load(st, sv.Base, call.Pos()).(*Term); ok && arr.Sort.K == KArr {
+		na := Fresh("append.spare", arr.Sort)
+		j := BoundVar(fmt.Sprintf("j!a%d", boundCounter()), ex.idxSort())
+		in := And(ex.le(ex.add(sv.Off, sv.Len), j), ex.lt(j, ex.add(sv.Off, sv.Cap)))
+		st.assume(Forall([]*Term{j}, Implies(Not(in), Eq(Select(na, j), Select(arr, j)))))
+		nc := ex.freshLen("append.cap")
+		st.assume(ex.le(newLen, nc))
+		st.assume(ex.le(nc, ex.lenBound()))
+		res := ex.makeSlice(st, elem, newLen, nc, call.Pos())
+		ex.copyElems(st, res, ex.idxConst(0), sv, sv.Len, call.Pos())
+		write(st, res)
+		ex.store(st, sv.Base, na, call.Pos())
 		return res
 	}
 	ex.fail(call.Pos(), "append with undecided capacity (add a case split on cap)")
